@@ -2,7 +2,7 @@
 """Prints the sub-agent prompt for property <ID> with worktree <WT> (property text only)."""
 import json, sys
 pid, wt = sys.argv[1], sys.argv[2]
-tmpl = open(sys.argv[3] if len(sys.argv) > 3 else "/tmp/agent_prompt.txt").read()
+tmpl = open(sys.argv[3] if len(sys.argv) > 3 else "/verif/tools/agent_prompt_round1.txt").read()
 for l in open("/verif/properties.jsonl"):
     p = json.loads(l)
     if p["id"] == pid:
